@@ -94,8 +94,9 @@ impl SimpleDawg {
         }
 
         // Mark final state as terminal
-        self.states.insert(current_state, true);
-        self.num_keys += 1;
+        if self.states.insert(current_state, true) != Some(true) {
+            self.num_keys += 1;
+        }
         Ok(())
     }
 
